@@ -182,3 +182,67 @@ CHECKS["C03"] = dict(
     assumptions=_TUN_ASSUME,
     jobs=[dict(name="bubble", pkg="./tun", go=GO126, test="TestC03B", shards=(4, 16), checks=(1500, 25000), timeout=(600, 3000))],
 )
+
+CHECKS["C04"] = dict(
+    rule=("rapid-drawn streams of 1..1000 tunnelling requests (5% long enough to cross the 255->0 wrap several times): channel current/foreign, "
+          "sequence number expected / previous / next / far off / absolute, back-to-back repetitions, disconnect requests forcing "
+          "reconnects (counters back to 0), UDP and TCP; consumer always ready, stalled for the whole stream, or reading intermittently; "
+          "Inbound is drained before the tunnel is closed. Non-trivial = stream with a wrap, or a repetition plus an out-of-window "
+          "number, or >= 2 telegrams parked while such requests arrive; distinct by plan."),
+    level_text=("Sampled request streams and consumer schedules on a fake clock against the reference receiver: the acknowledgements "
+                "leaving the socket must be exactly the predicted ones (channel, number, instant, order) and the multiset read from "
+                "Inbound must equal the multiset of accepted telegrams."),
+    level_note="Trusted: reference receiver in harness/tun/c04_test.go, memsock, hook constructor. Delivery order is C17's subject and not asserted here.",
+    technique="rapid model-based testing of generated request streams and consumer stalls under testing/synctest virtual time (reference receiver model, multiset comparison)",
+    assumptions=_TUN_ASSUME,
+    jobs=[dict(name="bubble", pkg="./tun", go=GO126, test="TestC04B", shards=(4, 16), checks=(1200, 20000), timeout=(600, 3000))],
+)
+
+_RTR_ASSUME = ["A2 (memsock is a faithful model of the kernel sockets above the socket layer)",
+               "real clock: time.Sleep/After/AfterFunc never fire early and all stamps come from the monotonic clock, so every asserted bound is a lower bound or an order; upper bounds (liveness) use a 5 s limit for millisecond-scale operations"]
+
+CHECKS["C13"] = dict(
+    rule=("rapid-drawn router runs on the real clock: post-send pause 0/1/2/5/20 ms, 1..8 sender goroutines, bursts of up to 200 messages, "
+          "scenario classes pacing / busy at idle (hand-over stamped, lock then seen held through the TryLock probe, senders released "
+          "only then) / busy storm / busy under saturation, wait times 0..500 ms and 65535 ms, both control values. Non-trivial = run "
+          "with >= 2 contending senders or a busy indication that was seen to take effect; distinct by plan."),
+    level_text=("Sampled schedules on the real clock with one-sided oracles: start(i+1) - end(i) >= pause for every successful transmission, "
+                "no transmission earlier than hand-over + min(wait, 50 ms) once the lock was seen held at idle, a silence of at least "
+                "min(wait, 50 ms) somewhere after a busy taken in under saturation, every Send returns within 5 s."),
+    level_note="Trusted: memsock stamps (entry on call, exit just before return), the TryLock probe VerifSendLocked (used to sequence the harness, never as an oracle), VerifNewRouter. The 'at most one further transmission per goroutine already inside Send' clause is scheduler dependent: it is measured and reported in the evidence (class 'saturated: k transmissions between hand-over and silence'), not asserted.",
+    technique="rapid-generated concurrent histories on the real clock with lower-bound timing oracles and bounded liveness",
+    assumptions=_RTR_ASSUME,
+    jobs=[dict(name="real", pkg="./rtr", go=GO, test="TestC13", shards=(6, 16), checks=(60, 500), timeout=(600, 3000))],
+)
+
+CHECKS["C14"] = dict(
+    rule=("rapid-drawn histories: retain count 0 (=32) and 1..64, 1..300 Sends (10% scripted to fail) from 1..4 goroutines, lost indications "
+          "with counts around the retained length and the retain count (0, 1, cap-1, cap, cap+1, 2cap, 65535) issued at quiescence "
+          "(senders held, previous resend observed) or - in a fifth of the plans - un-gated, busy indications, inbound routing "
+          "indications in bursts, consumers always ready / stalled / intermittent, Close at a generated point, a final lost(65535). "
+          "Non-trivial = history with a lost indication whose count differs from the retained length and a failed or trimmed message; "
+          "distinct by plan."),
+    level_text=("Sampled histories against the reference retained-window model: every emitted frame must be the transmission of a Send in "
+                "progress or the next element of the model's resend queue, the probed retained length must equal the model's and never "
+                "exceed RetainCount, failed transmissions never reappear, a probe Send returns after every history, every received "
+                "indication is read exactly once, Inbound closes after Close."),
+    level_note="Trusted: the window model in harness/rtr/oracle_test.go, memsock, VerifNewRouter/VerifRetainedLen. After an un-gated lost indication the model only demands that every retransmission is an earlier successful message (which messages were retained when the serve loop obtained the lock is not observable).",
+    technique="rapid model-based testing of generated send/lost/busy/close histories (reference retained-window model, frame attribution), real clock",
+    assumptions=_RTR_ASSUME,
+    jobs=[dict(name="real", pkg="./rtr", go=GO, test="TestC14", shards=(6, 16), checks=(120, 2500), timeout=(600, 3000))],
+)
+
+CHECKS["C17"] = dict(
+    rule=("rapid-drawn bursts (1..4 bursts of 2..64 accepted telegrams, gaps 0/1/30 us so that several are taken at one instant) x consumer "
+          "behaviour (reading before the burst; stalled for the whole burst; intermittently ready with think times) x four client kinds "
+          "(tunnel UDP/TCP, group tunnel, router, group router); tunnel clients both on the fake clock and on the real clock, router "
+          "clients on the real clock. Non-trivial = burst during which at least one hand-off found the consumer not ready; distinct by plan."),
+    level_text=("Sampled bursts and consumer schedules; oracle: the sequence read from Inbound equals the sequence in which the client took "
+                "the accepted telegrams from its socket."),
+    level_note="Trusted: memsock's single pump goroutine defines the acceptance order (as the single receiver goroutine of a real socket does). Consumer schedules are sampled, not enumerated.",
+    technique="rapid-generated bursts x consumer schedules, order-equality oracle, under testing/synctest virtual time and on the real clock",
+    assumptions=_TUN_ASSUME[1:2],
+    jobs=[dict(name="bubble", pkg="./tun", go=GO126, test="TestC17B", shards=(2, 8), checks=(1500, 20000), timeout=(600, 3000)),
+          dict(name="real", pkg="./tun", go=GO, test="TestC17R", shards=(4, 8), checks=(60, 1200), timeout=(600, 3000)),
+          dict(name="router", pkg="./rtr", go=GO, test="TestC17Router", shards=(4, 8), checks=(100, 2000), timeout=(600, 3000))],
+)
